@@ -451,7 +451,7 @@ Qed.
 (* what a step does to the sequence of delivered items *)
 Lemma items_step : forall s fl fl', fstep s fl fl' ->
   items fl' = items fl \/
-  items fl' = [] \/
+  ((f_subscribed fl = false \/ f_h fl = HNotStarted) /\ items fl' = []) \/
   (exists f, f_h fl = HAtSend f /\ items fl' = items fl ++ [IReal f]) \/
   (exists f, f_l fl = LAtRecv f /\ in_scope_c (o_ctx (fo fl)) f = true /\ leL (f_last fl) f = false /\
              items fl' = items fl ++ [IReal f]) \/
@@ -459,9 +459,9 @@ Lemma items_step : forall s fl fl', fstep s fl fl' ->
   (f_hb fl = true /\ items fl' = items fl ++ [IPulse]).
 Proof.
   intros s fl fl' St. inversion St; subst fl'; rewrite ?items_hadv.
-  - right; left; reflexivity.
-  - right; left; reflexivity.
-  - right; left; reflexivity.
+  - right; left; split; [left; assumption|reflexivity].
+  - right; left; split; [right; assumption|reflexivity].
+  - right; left; split; [right; assumption|reflexivity].
   - right; right; left. exists f. split; [assumption|]. apply (items_push fl (IReal f)).
   - right; right; right; right; left. split; [assumption|]. split; [assumption|].
     apply (items_push fl IThreshold).
@@ -500,7 +500,7 @@ Proof.
   - intros o. split; intros H; destruct H.
   - intros s k fl fl' R E St [Hp Ht]. pose proof (shape s k fl R E) as (_ & Hb & _ & Hh).
     unfold Synth. rewrite (fo_step s fl fl' St).
-    destruct (items_step s fl fl' St) as [X|[X|[(f & _ & X)|[(f & _ & _ & _ & X)|[(Eh & W & X)|(Eb & X)]]]]];
+    destruct (items_step s fl fl' St) as [X|[(_ & X)|[(f & _ & X)|[(f & _ & _ & _ & X)|[(Eh & W & X)|(Eb & X)]]]]];
       rewrite X; split; intros H; try (apply in_app_or in H; destruct H as [H|[H|[]]]);
       try discriminate H; try (destruct H; fail); auto.
     + apply wants_threshold_spec in W. rewrite Eh in Hh. destruct Hh as (_ & T & _). tauto.
@@ -618,5 +618,140 @@ Proof.
   all: split_all; try discriminate; try congruence.
   all: try lia.
   all: try (split; lia).
-  Show.
-Admitted.
+Qed.
+
+Theorem cnt : forall s k fl, reach s -> nth_error (g_fs s) k = Some fl -> Cnt fl.
+Proof.
+  apply (follower_ind_local Cnt).
+  - intros o n _ _. reflexivity.
+  - intros s k fl fl' R E St H. exact (cnt_step s fl fl' St (shape s k fl R E) H).
+Qed.
+
+Theorem limit_exact : forall s k fl n, reach s -> nth_error (g_fs s) k = Some fl ->
+  o_limit (fo fl) = Some n -> (o_tail (fo fl) = false \/ n <> 0) ->
+  (length (seen fl) <= N.to_nat n)%nat.
+Proof.
+  intros s k fl n R E L Hnz. pose proof (cnt s k fl R E n L Hnz) as H.
+  destruct (f_h fl) as [| | | |[|]|]; try (destruct (f_l fl)); lia.
+Qed.
+
+(* a property of follower k that is preserved by its own steps is preserved by schedules *)
+Lemma crun_stable : forall (A : Type) (obs : follower -> A) (Q : follower -> Prop),
+  (forall s k fl fl', reach s -> nth_error (g_fs s) k = Some fl -> fstep s fl fl' -> Q fl ->
+                      Q fl' /\ obs fl' = obs fl) ->
+  forall sched s s' k fl fl', reach s -> crun s sched = Some s' ->
+    nth_error (g_fs s) k = Some fl -> nth_error (g_fs s') k = Some fl' -> Q fl ->
+    Q fl' /\ obs fl' = obs fl.
+Proof.
+  intros A obs Q HS. induction sched as [|l r IH]; intros s s' k fl fl' R H E E' HQ; cbn [crun] in H.
+  - inversion H; subst s'. rewrite E in E'. inversion E'; subst fl'. split; [exact HQ|reflexivity].
+  - destruct (cstep s l) as [s1|] eqn:E1; [|discriminate H].
+    pose proof (reach_step s l s1 R E1) as R1.
+    destruct (cstep_follower s l s1 k fl (reach_inv s R) E1 E) as [[E2 _]|(fl1 & E2 & St & _)].
+    + exact (IH s1 s' k fl fl' R1 H E2 E' HQ).
+    + destruct (HS s k fl fl1 R E St HQ) as [Q1 O1].
+      destruct (IH s1 s' k fl1 fl' R1 H E2 E' Q1) as [Q2 O2]. split; [exact Q2|]. congruence.
+Qed.
+
+Theorem exited_no_more : forall s k fl, reach s -> nth_error (g_fs s) k = Some fl ->
+  f_l fl = LExited ->
+  (f_h fl = HFinished true \/ f_h fl = HFinished false \/ f_h fl = HNone) ->
+  forall sched s' fl', crun s sched = Some s' -> nth_error (g_fs s') k = Some fl' ->
+  f_got fl' ++ f_out fl' = f_got fl ++ f_out fl.
+Proof.
+  intros s k fl R E El Eh sched s' fl' H E'.
+  apply (crun_stable _ items
+           (fun fl => f_l fl = LExited /\
+                      (f_h fl = HFinished true \/ f_h fl = HFinished false \/ f_h fl = HNone)))
+    with (sched := sched) (s := s) (s' := s') (k := k); try assumption; [|split; assumption].
+  clear. intros s k fl fl' R E St [El Eh]. pose proof (shape s k fl R E) as (Hx & Hb & Hn & Hh).
+  specialize (Hx El).
+  inversion St; subst fl'; fprj;
+    try match goal with C : can_recv _ |- _ => destruct C as [[C _]|C] end;
+    try congruence;
+    try (exfalso; destruct Eh as [Eh|[Eh|Eh]]; rewrite Eh in Hh; cbv beta iota in Hh; split_all; congruence);
+    try (exfalso; destruct Eh as [Eh|[Eh|Eh]]; congruence).
+  split; [split; assumption|]. apply items_consume. assumption.
+Qed.
+
+(* ------------------------------------------------------------------ *)
+(* the scan: least in-scope committed frame above the cursor          *)
+(* ------------------------------------------------------------------ *)
+
+Definition sok (c cur : option N) (f : cfr) : bool := in_scope_c c f && after_c cur f.
+
+Definition scanF (c cur : option N) (best : option cfr) (f : cfr) : option cfr :=
+  if in_scope_c c f && after_c cur f then
+    match best with
+    | Some b => if c_id f <? c_id b then Some f else best
+    | None => Some f
+    end
+  else best.
+
+Lemma scan_next_fold : forall st c cur, scan_next st c cur = fold_left (scanF c cur) st None.
+Proof. reflexivity. Qed.
+
+Lemma scan_fold : forall c cur st best,
+  (forall b, best = Some b -> sok c cur b = true) ->
+  match fold_left (scanF c cur) st best with
+  | Some r => sok c cur r = true /\ (best = Some r \/ In r st) /\
+              (forall b, best = Some b -> c_id r <= c_id b) /\
+              (forall x, In x st -> sok c cur x = true -> c_id r <= c_id x)
+  | None => best = None /\ forall x, In x st -> sok c cur x = false
+  end.
+Proof.
+  intros c cur. induction st as [|a st IH]; intros best Hb; cbn [fold_left].
+  - destruct best as [b|].
+    + split; [apply Hb; reflexivity|]. split; [left; reflexivity|]. split.
+      * intros b0 E. inversion E; subst. lia.
+      * intros x [].
+    + split; [reflexivity|]. intros x [].
+  - assert (Hb' : forall b, scanF c cur best a = Some b -> sok c cur b = true).
+    { intros b E. unfold scanF in E. fold (sok c cur a) in E.
+      destruct (sok c cur a) eqn:Ea.
+      - destruct best as [b0|].
+        + destruct (c_id a <? c_id b0); inversion E; subst; [exact Ea|apply Hb; reflexivity].
+        + inversion E; subst. exact Ea.
+      - apply Hb. exact E. }
+    specialize (IH (scanF c cur best a) Hb').
+    destruct (fold_left (scanF c cur) st (scanF c cur best a)) as [r|].
+    + destruct IH as (A & B & C & D). split; [exact A|].
+      unfold scanF in B, C. fold (sok c cur a) in B, C.
+      destruct (sok c cur a) eqn:Ea.
+      * destruct best as [b0|].
+        -- destruct (c_id a <? c_id b0) eqn:Elt.
+           ++ split; [destruct B as [B|B]; [inversion B; subst; right; left; reflexivity|right; right; exact B]|].
+              split.
+              ** intros b E. inversion E; subst. specialize (C a eq_refl). lia.
+              ** intros x [X|X] Sx; [subst; apply C; reflexivity|exact (D x X Sx)].
+           ++ split; [destruct B as [B|B]; [left; exact B|right; right; exact B]|].
+              split; [exact C|].
+              intros x [X|X] Sx; [subst; specialize (C b0 eq_refl); lia|exact (D x X Sx)].
+        -- split; [destruct B as [B|B]; [inversion B; subst; right; left; reflexivity|right; right; exact B]|].
+           split; [intros b E; discriminate E|].
+           intros x [X|X] Sx; [subst; apply C; reflexivity|exact (D x X Sx)].
+      * split; [destruct B as [B|B]; [left; exact B|right; right; exact B]|].
+        split; [exact C|].
+        intros x [X|X] Sx; [subst; rewrite Ea in Sx; discriminate Sx|exact (D x X Sx)].
+    + destruct IH as [A B]. unfold scanF in A. fold (sok c cur a) in A.
+      destruct (sok c cur a) eqn:Ea.
+      * destruct best as [b0|]; [destruct (c_id a <? c_id b0)|]; discriminate A.
+      * split; [exact A|]. intros x [X|X]; [subst; exact Ea|exact (B x X)].
+Qed.
+
+Lemma scan_next_some : forall st c cur r, scan_next st c cur = Some r ->
+  In r st /\ sok c cur r = true /\ forall x, In x st -> sok c cur x = true -> c_id r <= c_id x.
+Proof.
+  intros st c cur r H. rewrite scan_next_fold in H.
+  pose proof (scan_fold c cur st None) as F. rewrite H in F.
+  destruct F as (A & B & _ & D); [intros b E; discriminate E|].
+  split; [destruct B as [B|B]; [discriminate B|exact B]|]. split; assumption.
+Qed.
+
+Lemma scan_next_none : forall st c cur, scan_next st c cur = None ->
+  forall x, In x st -> sok c cur x = false.
+Proof.
+  intros st c cur H. rewrite scan_next_fold in H.
+  pose proof (scan_fold c cur st None) as F. rewrite H in F.
+  destruct F as [_ B]; [intros b E; discriminate E|]. exact B.
+Qed.
